@@ -79,7 +79,7 @@ def world_json(w):
 
 
 def run_histories(ctx, n, hist_len=(5, 30), storage_types=("multifilesystem",), layouts=({},), gen=None,
-                  monitor=None, tag="h", pid=None, compare_store=True):
+                  monitor=None, tag="h", pid=None, compare_store=True, disagreement_is_violation=False):
     """Returns the list of (case, outputs) evaluated.  Records obligations `correspondence:<tag>-responses`
     and `correspondence:<tag>-store`; calls monitor(world, hist, outs, runner) per history."""
     et = etags()
@@ -134,6 +134,12 @@ def run_histories(ctx, n, hist_len=(5, 30), storage_types=("multifilesystem",), 
                        "" if not bad else "model and implementation differ on %d of %d histories" % (len(bad), len(results)))
         for b in bad[:1]:
             explain(ctx, results[b], tag)
+            if disagreement_is_violation and "disagreement" in ctx.extra:
+                # C01: the model IS the specification (outcome class and payload of every request)
+                d = ctx.extra["disagreement"]
+                ctx.violation("request %d %s is answered %s; the ideal store predicts %s" % (
+                    d["step"], d["request"], d["implementation"], " ".join(d["model"].split())[:200]),
+                    dict(world=d["world"], history=d["history"], step=d["step"]))
     if compare_store:
         bad2 = ctx.diff_cases(tag + "_store", xh.COQ_HEADER, "run_case_store", store_cases, xh.enc_case, xh.enc_cstore,
                               "cstore_eqb", shard=25)
